@@ -173,8 +173,12 @@ fn to_pattern(field: &[AttrChar]) -> Option<Pattern> {
                     continue;
                 } else if quoted || c.is_quoted || c.origin == Origin::HardExpansion {
                     return Some(PatternChar::Literal(c.value));
+                } else if c.value == '\\' {
+                    // An unquoted backslash resulting from an expansion escapes
+                    // the next character. It is not part of the pattern itself.
+                    self.next_quoted = true;
+                    continue;
                 } else {
-                    self.next_quoted = c.value == '\\';
                     return Some(PatternChar::Normal(c.value));
                 }
             }
@@ -413,6 +417,17 @@ mod tests {
         let f = dummy_attr_field(r"\?");
         let mut i = glob(&mut env, f);
         assert_eq!(i.next().unwrap().unwrap().value, r"\?");
+        assert_eq!(i.next(), None);
+    }
+
+    #[test]
+    fn backslash_is_not_matched_as_a_character() {
+        let mut env = env_with_dummy_files(["a", "ab"]);
+        // The backslash escapes the 'a'; the pattern is equivalent to `a*`.
+        let f = dummy_attr_field(r"\a*");
+        let mut i = glob(&mut env, f);
+        assert_eq!(i.next().unwrap().unwrap().value, "a");
+        assert_eq!(i.next().unwrap().unwrap().value, "ab");
         assert_eq!(i.next(), None);
     }
 
